@@ -28,14 +28,17 @@ type Obs struct {
 	// Presets: "holder.field" -> id of the object the application put into that optional,
 	// unsatisfiable point before Run.
 	Presets map[string]string `json:"presets,omitempty"`
+	// PointsLate: wiring of the components that were not created during Run, read after the
+	// by-name lookups that followed it (a lazy component nothing needed is created by its lookup).
+	PointsLate map[string]map[string][]string `json:"pointsLate,omitempty"`
 	// Lookup2 / CfgLate2: second round of lookups of the lazy components, after the
 	// application changed the configuration (Program.PostSetKey).
 	Lookup2  map[string]LookupObs         `json:"lookup2,omitempty"`
 	CfgLate2 map[string]map[string]string `json:"cfgLate2,omitempty"`
 	// CfgLate: configuration fields of lazy components, read after the by-name lookups.
 	CfgLate  map[string]map[string]string `json:"cfgLate,omitempty"`
-	RegOrder []string          `json:"regOrder,omitempty"`
-	RegOwner map[string]string `json:"regOwner,omitempty"`
+	RegOrder []string                     `json:"regOrder,omitempty"`
+	RegOwner map[string]string            `json:"regOwner,omitempty"`
 
 	// wiring after Run: holder -> field -> target ids. "?": object unknown to the harness.
 	Points map[string]map[string][]string `json:"points,omitempty"`
